@@ -58,6 +58,10 @@ use std::string::String;
 use std::hash::*;
 
 struct P5 { a: u64, b: u64, c: u64, d: u64, e: u64 }
+struct S3 { a: u64, b: u64, c: u64 }
+struct S7 { a: u64, b: u64, c: u64, d: u64, e: u64, f: u64, g: u64 }
+// word offsets: a 0, b 1, c 2..4 (crosses slot 0/1), d 5..11 (place 1), e 12, f 13, g 14..20 (place 2, three slots), h 21..23
+struct Nest { a: u64, b: u64, c: S3, d: S7, e: u64, f: u64, g: S7, h: S3 }
 
 storage {
     %(va)s: StorageVec<u64> = StorageVec {},
@@ -67,6 +71,9 @@ storage {
     %(mb)s: StorageMap<b256, u64> = StorageMap {},
     %(sa)s: StorageString = StorageString {},
     %(mc)s: StorageMap<u64, P5> = StorageMap {},
+    %(vc)s: StorageVec<S3> = StorageVec {},
+    %(vd)s: StorageVec<S7> = StorageVec {},
+    %(st)s: Nest = %(st_init)s,
 }
 abi S {
     #[storage(read, write)] fn v_push(f: u64, v: u64) -> Vec<u64>;
@@ -105,6 +112,33 @@ abi S {
     #[storage(read, write)] fn b_clear_key(f: u64) -> Vec<u64>;
     #[storage(read)] fn b_len(f: u64) -> Vec<u64>;
     #[storage(read)] fn probe(k: b256) -> Vec<u64>;
+    #[storage(read, write)] fn x3_push(v: S3) -> Vec<u64>;
+    #[storage(read, write)] fn x3_pop() -> Vec<u64>;
+    #[storage(read)] fn x3_get(i: u64) -> Vec<u64>;
+    #[storage(read, write)] fn x3_set(i: u64, v: S3) -> Vec<u64>;
+    #[storage(read, write)] fn x3_insert(i: u64, v: S3) -> Vec<u64>;
+    #[storage(read, write)] fn x3_remove(i: u64) -> Vec<u64>;
+    #[storage(read, write)] fn x3_swap(i: u64, j: u64) -> Vec<u64>;
+    #[storage(read, write)] fn x3_swap_remove(i: u64) -> Vec<u64>;
+    #[storage(read)] fn x3_len() -> Vec<u64>;
+    #[storage(read)] fn x3_first() -> Vec<u64>;
+    #[storage(read)] fn x3_last() -> Vec<u64>;
+    #[storage(read, write)] fn x3_reverse() -> Vec<u64>;
+    #[storage(read, write)] fn x3_fill(v: S3) -> Vec<u64>;
+    #[storage(read, write)] fn x3_resize(n: u64, v: S3) -> Vec<u64>;
+    #[storage(read)] fn x3_load() -> Vec<u64>;
+    #[storage(read, write)] fn x7_push(v: S7) -> Vec<u64>;
+    #[storage(read, write)] fn x7_pop() -> Vec<u64>;
+    #[storage(read)] fn x7_get(i: u64) -> Vec<u64>;
+    #[storage(read, write)] fn x7_set(i: u64, v: S7) -> Vec<u64>;
+    #[storage(read, write)] fn x7_insert(i: u64, v: S7) -> Vec<u64>;
+    #[storage(read, write)] fn x7_remove(i: u64) -> Vec<u64>;
+    #[storage(read)] fn x7_len() -> Vec<u64>;
+    #[storage(read)] fn x7_load() -> Vec<u64>;
+    #[storage(read)] fn c_read(i: u64) -> Vec<u64>;
+    #[storage(read, write)] fn c_w1(i: u64, v: u64) -> Vec<u64>;
+    #[storage(read, write)] fn c_w3(i: u64, v: S3) -> Vec<u64>;
+    #[storage(read, write)] fn c_w7(i: u64, v: S7) -> Vec<u64>;
 }
 fn lcg(x: u64) -> u64 { (x * 1103515245 + 12345) %% 2147483648 }
 fn mkbytes(seed: u64, n: u64, ascii_only: bool) -> Bytes {
@@ -156,7 +190,78 @@ fn op5(tag: u64, v: P5) -> Vec<u64> {
     r.push(tag); r.push(v.a); r.push(v.b); r.push(v.c); r.push(v.d); r.push(v.e);
     r
 }
+fn p3(ref mut r: Vec<u64>, v: S3) { r.push(v.a); r.push(v.b); r.push(v.c); }
+fn p7(ref mut r: Vec<u64>, v: S7) { r.push(v.a); r.push(v.b); r.push(v.c); r.push(v.d); r.push(v.e); r.push(v.f); r.push(v.g); }
+fn o3(v: S3) -> Vec<u64> { let mut r = Vec::new(); p3(r, v); r }
+fn o7(v: S7) -> Vec<u64> { let mut r = Vec::new(); p7(r, v); r }
+fn t3(v: S3) -> Vec<u64> { let mut r = Vec::new(); r.push(1); p3(r, v); r }
+fn t7(v: S7) -> Vec<u64> { let mut r = Vec::new(); r.push(1); p7(r, v); r }
+#[storage(read)]
+fn okey3(k: Option<StorageKey<S3>>) -> Vec<u64> {
+    match k {
+        Some(k) => match k.try_read() { Some(v) => t3(v), None => o1(2), },
+        None => o1(0),
+    }
+}
+#[storage(read)]
+fn okey7(k: Option<StorageKey<S7>>) -> Vec<u64> {
+    match k {
+        Some(k) => match k.try_read() { Some(v) => t7(v), None => o1(2), },
+        None => o1(0),
+    }
+}
 impl S for Contract {
+    #[storage(read, write)] fn x3_push(v: S3) -> Vec<u64> { storage.%(vc)s.push(v); o0() }
+    #[storage(read, write)] fn x3_pop() -> Vec<u64> { match storage.%(vc)s.pop() { Some(v) => t3(v), None => o1(0), } }
+    #[storage(read)] fn x3_get(i: u64) -> Vec<u64> { okey3(storage.%(vc)s.get(i)) }
+    #[storage(read, write)] fn x3_set(i: u64, v: S3) -> Vec<u64> { storage.%(vc)s.set(i, v); o0() }
+    #[storage(read, write)] fn x3_insert(i: u64, v: S3) -> Vec<u64> { storage.%(vc)s.insert(i, v); o0() }
+    #[storage(read, write)] fn x3_remove(i: u64) -> Vec<u64> { o3(storage.%(vc)s.remove(i)) }
+    #[storage(read, write)] fn x3_swap(i: u64, j: u64) -> Vec<u64> { storage.%(vc)s.swap(i, j); o0() }
+    #[storage(read, write)] fn x3_swap_remove(i: u64) -> Vec<u64> { o3(storage.%(vc)s.swap_remove(i)) }
+    #[storage(read)] fn x3_len() -> Vec<u64> { o1(storage.%(vc)s.len()) }
+    #[storage(read)] fn x3_first() -> Vec<u64> { okey3(storage.%(vc)s.first()) }
+    #[storage(read)] fn x3_last() -> Vec<u64> { okey3(storage.%(vc)s.last()) }
+    #[storage(read, write)] fn x3_reverse() -> Vec<u64> { storage.%(vc)s.reverse(); o0() }
+    #[storage(read, write)] fn x3_fill(v: S3) -> Vec<u64> { storage.%(vc)s.fill(v); o0() }
+    #[storage(read, write)] fn x3_resize(n: u64, v: S3) -> Vec<u64> { storage.%(vc)s.resize(n, v); o0() }
+    #[storage(read)] fn x3_load() -> Vec<u64> {
+        let l = storage.%(vc)s.load_vec();
+        let mut r = Vec::new();
+        let mut i = 0;
+        while i < l.len() { p3(r, l.get(i).unwrap()); i += 1; }
+        r
+    }
+    #[storage(read, write)] fn x7_push(v: S7) -> Vec<u64> { storage.%(vd)s.push(v); o0() }
+    #[storage(read, write)] fn x7_pop() -> Vec<u64> { match storage.%(vd)s.pop() { Some(v) => t7(v), None => o1(0), } }
+    #[storage(read)] fn x7_get(i: u64) -> Vec<u64> { okey7(storage.%(vd)s.get(i)) }
+    #[storage(read, write)] fn x7_set(i: u64, v: S7) -> Vec<u64> { storage.%(vd)s.set(i, v); o0() }
+    #[storage(read, write)] fn x7_insert(i: u64, v: S7) -> Vec<u64> { storage.%(vd)s.insert(i, v); o0() }
+    #[storage(read, write)] fn x7_remove(i: u64) -> Vec<u64> { o7(storage.%(vd)s.remove(i)) }
+    #[storage(read)] fn x7_len() -> Vec<u64> { o1(storage.%(vd)s.len()) }
+    #[storage(read)] fn x7_load() -> Vec<u64> {
+        let l = storage.%(vd)s.load_vec();
+        let mut r = Vec::new();
+        let mut i = 0;
+        while i < l.len() { p7(r, l.get(i).unwrap()); i += 1; }
+        r
+    }
+    #[storage(read)] fn c_read(i: u64) -> Vec<u64> {
+        if i == 0 { match storage.%(st)s.a.try_read() { Some(v) => o2(1, v), None => o1(0), } }
+        else if i == 1 { match storage.%(st)s.b.try_read() { Some(v) => o2(1, v), None => o1(0), } }
+        else if i == 2 { match storage.%(st)s.c.try_read() { Some(v) => t3(v), None => o1(0), } }
+        else if i == 3 { match storage.%(st)s.d.try_read() { Some(v) => t7(v), None => o1(0), } }
+        else if i == 4 { match storage.%(st)s.e.try_read() { Some(v) => o2(1, v), None => o1(0), } }
+        else if i == 5 { match storage.%(st)s.f.try_read() { Some(v) => o2(1, v), None => o1(0), } }
+        else if i == 6 { match storage.%(st)s.g.try_read() { Some(v) => t7(v), None => o1(0), } }
+        else { match storage.%(st)s.h.try_read() { Some(v) => t3(v), None => o1(0), } }
+    }
+    #[storage(read, write)] fn c_w1(i: u64, v: u64) -> Vec<u64> {
+        if i == 0 { storage.%(st)s.a.write(v); } else if i == 1 { storage.%(st)s.b.write(v); } else if i == 4 { storage.%(st)s.e.write(v); } else { storage.%(st)s.f.write(v); }
+        o0()
+    }
+    #[storage(read, write)] fn c_w3(i: u64, v: S3) -> Vec<u64> { if i == 2 { storage.%(st)s.c.write(v); } else { storage.%(st)s.h.write(v); } o0() }
+    #[storage(read, write)] fn c_w7(i: u64, v: S7) -> Vec<u64> { if i == 3 { storage.%(st)s.d.write(v); } else { storage.%(st)s.g.write(v); } o0() }
     #[storage(read, write)] fn v_push(f: u64, v: u64) -> Vec<u64> { if f == 0 { storage.%(va)s.push(v); } else { storage.%(vb)s.push(v); } o0() }
     #[storage(read, write)] fn v_pop(f: u64) -> Vec<u64> {
         let r = if f == 0 { storage.%(va)s.pop() } else { storage.%(vb)s.pop() };
@@ -224,7 +329,13 @@ VEC_OPS = ["push", "push", "push", "pop", "get", "get", "set", "insert", "remove
            "clear", "first", "last", "reverse", "fill", "resize", "store", "load", "load"]
 MAP_OPS = ["insert", "insert", "get", "get", "remove", "try_insert"]
 BYTES_OPS = ["write", "write", "write", "read", "read", "clear", "clear_key", "len"]
-FIELD_ORDER = ["va", "ma", "ba", "vb", "mb", "sa", "mc"]
+FIELD_ORDER = ["va", "ma", "ba", "vb", "mb", "sa", "mc", "vc", "vd", "st"]
+WVEC = {"vc": (3, "x3", ["push", "push", "push", "pop", "get", "get", "get", "set", "set", "insert", "remove", "swap", "swap_remove",
+                         "len", "first", "last", "reverse", "fill", "resize", "load", "load"]),
+        "vd": (7, "x7", ["push", "push", "push", "pop", "get", "get", "get", "set", "insert", "remove", "len", "load"])}
+# struct fields of the Nest-typed storage field: index -> (word offset, words, is reference type)
+CELLS = {0: (0, 1, False), 1: (1, 1, False), 2: (2, 3, True), 3: (5, 7, True), 4: (12, 1, False), 5: (13, 1, False), 6: (14, 7, True), 7: (21, 3, True)}
+NEST_WORDS = 24
 
 
 def rand_val(rng):
@@ -248,6 +359,7 @@ class Pkg:
         self.keys = {"ma": [0, 1, U64 - 1, rng.randrange(U64), rng.randrange(U64)],
                      "mc": [0, 2, rng.randrange(U64), rng.randrange(1 << 20)],
                      "mb": [0, 2 ** 256 - 1, base, base + 1, rng.randrange(2 ** 256)]}
+        self.st_init = [rand_val(rng) for _ in range(NEST_WORDS)]
         self.tab = {}     # preimage (tuple of bytes) -> digest
         for k, n in self.names.items():
             self.h([0] + list(("storage." + n).encode()))
@@ -275,12 +387,63 @@ def gen_history(rng, pkg, maxlen):
     lens = {"va": 0, "vb": 0}
     ops = []
     touched = []          # candidate probe slots
-    focus = rng.choice(["vec", "vec", "map", "bytes", "mix", "mix"])
+    focus = rng.choice(["vec", "vec", "map", "bytes", "mix", "mix", "vecw", "vecw", "cell"])
+    lens.update({"vc": 0, "vd": 0})
     while len(ops) < n:
-        kind = focus if focus != "mix" else rng.choice(["vec", "vec", "map", "bytes"])
+        kind = focus if focus != "mix" else rng.choice(["vec", "vec", "map", "bytes", "vecw", "cell"])
         if rng.random() < 0.15:
-            kind = rng.choice(["vec", "map", "bytes"])
-        if kind == "vec":
+            kind = rng.choice(["vec", "map", "bytes", "vecw", "cell"])
+        if kind == "vecw":
+            f = rng.choice(["vc", "vc", "vd"])
+            w, _, names = WVEC[f]
+            L = lens[f]
+            o = rng.choice(names)
+            if L < 3 and rng.random() < 0.6:
+                o = "push"
+
+            def idxw(valid_upto):
+                if valid_upto > 0 and rng.random() < 0.9:
+                    return rng.randrange(valid_upto)
+                return rng.choice([valid_upto, valid_upto + 1, U64 - 1])
+            val = [rand_val(rng) for _ in range(w)]
+            if o == "push": op = ("w", f, "push", val); lens[f] += 1
+            elif o == "pop": op = ("w", f, "pop"); lens[f] = max(0, L - 1)
+            elif o == "get": op = ("w", f, "get", idxw(L))
+            elif o in ("len", "first", "last", "load", "reverse"): op = ("w", f, o)
+            elif o == "fill": op = ("w", f, "fill", val)
+            elif o == "resize":
+                m = rng.choice([0, L, L + 1, rng.randint(0, 7)]); op = ("w", f, "resize", m, val); lens[f] = m
+            elif o == "set":
+                i = idxw(L); op = ("w", f, "set", i, val)
+                if i >= L: op = op + ("REVERT",)
+            elif o == "insert":
+                i = idxw(L + 1); op = ("w", f, "insert", i, val)
+                if i > L: op = op + ("REVERT",)
+                else: lens[f] += 1
+            elif o in ("remove", "swap_remove"):
+                i = idxw(L); op = ("w", f, o, i)
+                if i >= L: op = op + ("REVERT",)
+                else: lens[f] -= 1
+            elif o == "swap":
+                i, j = idxw(L), idxw(L); op = ("w", f, "swap", i, j)
+                if i >= L or j >= L: op = op + ("REVERT",)
+            if op[-1] == "REVERT":
+                if want_revert and len(ops) >= 2:
+                    ops.append(op[:-1])
+                    return ops, True
+                continue
+            ops.append(op)
+            b = pkg.base(f)
+            touched += [pkg.fid[f]] + [b + j for j in range(6)]
+        elif kind == "cell":
+            i = rng.randrange(8)
+            off, w, _ = CELLS[i]
+            if rng.random() < 0.5:
+                ops.append(("c", i, "read"))
+            else:
+                ops.append(("c", i, "write", [rand_val(rng) for _ in range(w)]))
+            touched += [pkg.fid["st"] + j for j in range(6)]
+        elif kind == "vec":
             f = rng.choice(["va", "vb"])
             L = lens[f]
             o = rng.choice(VEC_OPS)
@@ -355,7 +518,19 @@ def gen_history(rng, pkg, maxlen):
     return ops, False
 
 
+def sway_struct(v):
+    if len(v) == 1:
+        return str(v[0])
+    return "S%d { %s }" % (len(v), ", ".join("%s: %d" % (n, x) for n, x in zip("abcdefg", v)))
+
+
 def sway_call(pkg, op):
+    if op[0] == "w":
+        return "c.%s_%s(%s)" % (WVEC[op[1]][1], op[2], ", ".join(sway_struct(a) if isinstance(a, list) else str(a) for a in op[3:]))
+    if op[0] == "c":
+        if op[2] == "read":
+            return "c.c_read(%d)" % op[1]
+        return "c.c_w%d(%d, %s)" % (len(op[3]), op[1], sway_struct(op[3]))
     if op[0] == "v":
         f = 0 if op[1] == "va" else 1
         return "c.v_%s(%s)" % (op[2], ", ".join([str(f)] + [str(a) for a in op[3:]]))
@@ -380,6 +555,15 @@ def nl(xs):
 
 
 def coq_op(pkg, op):
+    if op[0] == "w":
+        o, a = op[2], op[3:]
+        c = {"push": "WPush %s", "pop": "WPop", "get": "WGet %s", "set": "WSet %s %s", "insert": "WInsert %s %s", "remove": "WRemove %s",
+             "swap": "WSwap %s %s", "swap_remove": "WSwapRemove %s", "len": "WLen", "first": "WFirst", "last": "WLast", "reverse": "WReverse",
+             "fill": "WFill %s", "resize": "WResize %s %s", "load": "WLoad"}
+        return "OVecW f_%s %d (%s)" % (op[1], WVEC[op[1]][0], c[o] % tuple(nl(x) if isinstance(x, list) else str(x) for x in a))
+    if op[0] == "c":
+        off, w, isref = CELLS[op[1]]
+        return "OCell f_st %d %d %s (%s)" % (off, w, "true" if isref else "false", "CRead" if op[2] == "read" else "CWrite %s" % nl(op[3]))
     if op[0] == "v":
         o, a = op[2], op[3:]
         c = {"push": "VPush %d", "pop": "VPop", "get": "VGet %d", "set": "VSet %d %d", "insert": "VInsert %d %d", "remove": "VRemove %d",
@@ -409,6 +593,10 @@ def coq_op(pkg, op):
 
 
 def opname(op):
+    if op[0] == "w":
+        return "vec_s%d_%s" % (WVEC[op[1]][0], op[2])
+    if op[0] == "c":
+        return "cell_w%d_%s" % (CELLS[op[1]][1], op[2])
     return {"v": "vec", "m": "map_" + str(op[1]), "b": "bytes" if op[1] == "ba" else "string", "p": "probe"}[op[0]] + ("_" + op[2] if op[0] != "p" else "")
 
 
@@ -430,21 +618,35 @@ VIOLATION_CODES = (2, 3, 5)
 def run(ctx):
     ctx.level = "proof"
     import facts_c28
+    tgen_error = None
     try:
         facts = facts_c28.generate()
     except facts_c28.FactsError as e:
-        facts = None
-        ctx.violation("C28.tgen", {"translator": "tools/facts_c28.py", "error": str(e), "name": "C28.tgen"},
-                      "C28.tgen: the storage library no longer has the shape the facts translator parses: %s" % e, no_input=True)
+        # the tie between source and model is broken: keep going with the last good facts (model of the
+        # last known code) and look for a concrete failing input on the VM; the break itself is reported
+        # at the end (no_input) whatever the search finds
+        tgen_error = str(e)
+        try:
+            facts_c28.use_snapshot(); facts = {"snapshot": True}
+        except facts_c28.FactsError as e2:
+            facts = None; tgen_error += " ; " + str(e2)
+        ctx.log("C28.tgen FAILED (%s); continuing with the last good facts snapshot" % tgen_error[:200])
+
+    def report_tgen():
+        if tgen_error:
+            ctx.violation("C28.tgen", {"translator": "tools/facts_c28.py", "error": tgen_error, "name": "C28.tgen",
+                                       "model_used": "tools/c28_facts_snapshot.v (last good translation)"},
+                          "C28.tgen: the storage library no longer has the shape the facts translator parses: %s" % tgen_error, no_input=True)
     ok, out = coq.check_props(ctx, "C28", extra_targets=["C28/Judge.vo"])
     if not ok:
         ctx.log(out[-3000:])
         ctx.violation("proof", {"theorems": [o for o in ctx.obligations if not o[1]], "log": out[-2000:]}, "C28 proofs do not check", no_input=True)
     ctx.log("proofs %s" % ("checked" if ok else "DO NOT CHECK"))
     if facts is None:
+        report_tgen()
         return
     npk = 6 if ctx.quick else 96
-    ntests = (10, 14) if ctx.quick else (16, 24)
+    ntests = (11, 14) if ctx.quick else (16, 24)
     maxlen = 25 if ctx.quick else 40
     base = os.path.join(ctx.work, "pkgs")
     pkgs, dirs = [], []
@@ -463,7 +665,20 @@ def run(ctx):
             p.tests[2] = ([("m", "mc", "insert", 0, [1, 2, 3, 4, 5]), ("m", "ma", "insert", 0, [6]), ("m", "mc", "get", 0), ("m", "ma", "get", 0),
                            ("m", "mc", "remove", 0), ("m", "mc", "get", 0), ("m", "ma", "get", 0), ("m", "mc", "try_insert", 0, [9, 8, 7, 6, 5]),
                            ("m", "mc", "try_insert", 0, [1, 1, 1, 1, 1]), ("v", "va", "push", 3), ("v", "va", "set", 1, 4)], True)
-        src = [CONTRACT % p.names]
+        st = p.st_init
+        nest = "Nest { a: %d, b: %d, c: %s, d: %s, e: %d, f: %d, g: %s, h: %s }" % (
+            st[0], st[1], sway_struct(st[2:5]), sway_struct(st[5:12]), st[12], st[13], sway_struct(st[14:21]), sway_struct(st[21:24]))
+        if k == 0:      # struct elements / struct fields that straddle 32-byte slot boundaries, all residues mod 4
+            vs3 = [[10 * i + 1, 10 * i + 2, 10 * i + 3] for i in range(6)]
+            p.tests[3] = ([("w", "vc", "push", v) for v in vs3[:5]] + [("w", "vc", "get", i) for i in range(5)] + [("w", "vc", "load"),
+                          ("w", "vc", "set", 2, vs3[5]), ("w", "vc", "get", 1), ("w", "vc", "get", 2), ("w", "vc", "get", 3), ("w", "vc", "remove", 0),
+                          ("w", "vc", "load"), ("p", p.base("vc")), ("p", p.base("vc") + 1), ("p", p.base("vc") + 2)], False)
+            vs7 = [[100 * i + j for j in range(7)] for i in range(4)]
+            p.tests[4] = ([("w", "vd", "push", v) for v in vs7] + [("w", "vd", "get", i) for i in range(4)] + [("w", "vd", "load"), ("w", "vd", "pop"),
+                          ("w", "vd", "insert", 1, vs7[3]), ("w", "vd", "load"), ("p", p.base("vd") + 1), ("p", p.base("vd") + 3)], False)
+            p.tests[5] = ([("c", i, "read") for i in range(8)] + [("c", 2, "write", [7, 8, 9]), ("c", 6, "write", [1, 2, 3, 4, 5, 6, 7]), ("c", 3, "write", [9] * 7),
+                          ("c", 1, "write", [5])] + [("c", i, "read") for i in range(8)] + [("p", p.fid["st"] + j) for j in (0, 1, 3, 5)], False)
+        src = [CONTRACT % dict(p.names, st_init=nest)]
         for i, (ops, rev) in enumerate(p.tests):
             body = "\n".join("    log(%s);" % sway_call(p, o) for o in ops)
             src.append("%s\nfn t%02d() {\n    let c = abi(S, CONTRACT_ID);\n%s\n}\n" % ("#[test(should_revert)]" if rev else "#[test]", i, body))
@@ -492,6 +707,11 @@ def run(ctx):
                  "Definition names : list (list N) := [%s]." % "; ".join(nl(p.names[k].encode()) for k in FIELD_ORDER)]
         for k in FIELD_ORDER:
             lines.append("Definition f_%s : N := Eval vm_compute in fid tab %s." % (k, nl(p.names[k].encode())))
+        st = p.st_init
+        lines.append("Definition init_store : store := [%s]." % "; ".join(
+            "(f_st + %d, (%d, %d, %d, %d))" % ((j,) + tuple(st[4 * j:4 * j + 4])) for j in range(NEST_WORDS // 4)))
+        lines.append("Definition init_cells : list (N * N * list N) := [%s]." % "; ".join(
+            "(f_st, %d, %s)" % (off, nl(st[off:off + w])) for off, w, _ in CELLS.values()))
         cases = []
         for i, (ops, rev) in enumerate(p.tests):
             t = byname.get("t%02d" % i)
@@ -503,7 +723,7 @@ def run(ctx):
                 ctx.violation("bad-log", {"package": d, "test": i, "receipts": t["receipts"][:40]}, "unparsable log record", no_input=True)
                 continue
             reverted = not t["state"].startswith("Return")
-            lines.append("Eval vm_compute in (judge tab names [%s]\n [%s] %s)." % (
+            lines.append("Eval vm_compute in (judge_init tab names init_store init_cells [%s]\n [%s] %s)." % (
                 ";\n  ".join(coq_op(p, o) for o in ops), "; ".join(nl(o) for o in obs), "true" if reverted else "false"))
             cases.append((i, ops, rev, obs, t))
         shards.append("\n".join(lines)); meta.append((p, d, cases))
@@ -536,13 +756,14 @@ def run(ctx):
                     ctx.violation(key, rep, "storage collection differs from its list/map/bytes model: %s at operation %d (%s) of the history" % (CODES[c], at, bad))
                 else:
                     ctx.violation(key, dict(rep, correspondence="C28.corr/step"), "model M and execution differ (%s) at operation %d (%s); S accepts the execution" % (CODES.get(c, c), at, bad), no_input=True)
+    report_tgen()
     ctx.coverage.update({
         "checker_cmd": "python3 tools/facts_c28.py ; make -C coq C28/Props.vo C28/Judge.vo (coqc 8.16.1) ; coqc vm_compute judge over fuel-vm logs",
         "trusted_base": ["Coq 8.16.1 kernel + vm_compute", "tools/facts_c28.py (regex translation of constants / code shapes, fails loudly)",
                          "harness/src/bin/swayrun.rs", "props/c28.py (contract wrapper methods, Sway printer, log parsing, hashlib sha256 digests)",
                          "fuel-vm storage instructions srwq/swwq/scwq as modelled in C28/Model.v, tied by the raw-slot probes"],
         "evaluations": total, "distinct_nontrivial": len(distinct),
-        "rule": "random operation histories (3..%d operations incl. 1-4 raw slot probes) over 7 storage fields of a generated contract, executed in-VM through contract calls; indices mostly in range, sometimes == len / huge; out-of-bounds set/insert/remove/swap/swap_remove only as the last operation of a should_revert test; non-trivial = at least 3 operations; distinct by operation list" % maxlen,
+        "rule": "random operation histories (3..%d operations incl. 1-4 raw slot probes) over 10 storage fields of a generated contract (u64 vectors, vectors of 3- and 7-word structs, maps, bytes, string, a struct-typed field whose members straddle slot boundaries), executed in-VM through contract calls; indices mostly in range, sometimes == len / huge; out-of-bounds set/insert/remove/swap/swap_remove only as the last operation of a should_revert test; non-trivial = at least 3 operations; distinct by operation list" % maxlen,
         "samples": samples, "packages": len(pkgs), "package_failures": stats, "judgements_per_operation": hist, "operations": opstat,
         "history_length": {"min": min(lens) if lens else 0, "max": max(lens) if lens else 0, "mean": round(sum(lens) / len(lens), 1) if lens else 0},
         "reverting_histories": reverting,
